@@ -926,3 +926,52 @@ def random_vd_units(rnd, n):
             t['items'] = [e] if t['op'] == 'filter' else [{'name': 'X1', 'role': 'M', 'expr': e}]
         units.append({'id': 'vd%d' % i, 'env': env, 'term': t, 'cc': True, 'nopack': True})
     return units
+
+
+def random_apply_units(rnd, n, attrs=False, three=False, cmp_ops=False):
+    """joins of two (three) aliased datasets whose body ends with `apply a op b`: homonymous measures are combined, other
+    measures left out; optionally a filter before it and keep / rename after it.
+    attrs / three / cmp_ops switch on the shapes for which the engine has known findings (kept apart so that the
+    plain shapes are judged on their own)."""
+    units = []
+    for i in range(n):
+        how = rnd.choice(['inner', 'inner', 'left', 'full'])
+        ids = [('Id_1', 'Integer'), ('Id_2', 'String')][:rnd.choice([1, 1, 2])]
+        nds = 3 if three else 2
+        common = ['Me_1'] + (['Me_2'] if rnd.random() < 0.5 else [])
+        ty = {m: rnd.choice(['Integer', 'Number']) for m in common}
+        env, ops = {}, []
+        aliased = rnd.random() < 0.7
+        for d in range(nds):
+            nm = 'DS_%d' % (d + 1)
+            others = [(m, 'M', ty[m] if rnd.random() < 0.7 else rnd.choice(['Integer', 'Number'])) for m in common]
+            if rnd.random() < 0.4:
+                others.append(('Me_%d' % (d + 5), 'M', 'Integer'))          # not homonymous: left out by apply
+            if attrs:
+                others.append(('At_1', 'A', 'String'))
+            env[nm] = gen.shuffled(rnd, gen.dataset(rnd, ids, others, rnd.choice([0, 1, 2, 3, 5]), keyspace=3, null_p=0.2))
+            ops.append({'t': var(nm), 'a': ('d%d' % (d + 1)) if aliased else nm})
+        a, b = rnd.sample([o['a'] for o in ops], 2)
+        bop = rnd.choice(['>', '<=', '=']) if cmp_ops else rnd.choice(['+', '-', '*'])
+        body = []
+        if rnd.random() < 0.3:
+            body.append({'op': 'filter', 'items': [{'k': 'bin', 'op': rnd.choice(['>', '<=']), 'l': var('%s#Me_1' % a), 'r': const(I(rnd.choice([0, 1, 2])))}]})
+        body.append({'op': 'apply', 'items': [a, b, bop]})
+        r = rnd.random()
+        if r < 0.2 and len(common) > 1:
+            body.append({'op': 'keep', 'items': ['Me_2']})
+        elif r < 0.4:
+            body.append({'op': 'rename', 'items': [['Me_1', 'X_1']]})
+        cls = []
+        if any(c['n'] not in common and c['r'] == 'M' for d in env.values() for c in d['comps']):
+            cls.append('with a non-homonymous measure')
+        if body[-1]['op'] != 'apply':
+            cls.append('followed by ' + body[-1]['op'])
+        if body[0]['op'] == 'filter':
+            cls.append('after filter')
+        if len({c['t'] for d in env.values() for c in d['comps'] if c['n'] in common}) > 1:
+            cls.append('Integer with Number')
+        cls += (['attributes'] if attrs else []) + (['three operands'] if three else []) + (['comparison'] if cmp_ops else [])
+        units.append({'id': 'ap%d' % i, 'env': env, 'term': {'k': 'join', 'how': how, 'ops': ops, 'using': [], 'body': body}, 'cc': True, 'nopack': True,
+                      'applyclass': ', '.join(cls) or 'plain'})
+    return units
